@@ -90,6 +90,10 @@ def run(replay=None):
                     if (bad or r.get("panic")) and not (r.get("panic") and mode not in ("default", "external")):
                         ck.impl_violation("resolved-to-other-symbol:mocker:" + mode, "link mode %s: a mocker object reused for another method name resolves the wrong symbol: %s %s (want %s)" % (
                             mode, bad, r.get("panic") or "", {k: want[k] for k in bad}), r)
+                    for path in ("apply", "as"):
+                        if ("absent_%s_accepted" % path) in r or not r.get("absent_%s_panic" % path):
+                            ck.impl_violation("absent-name-resolved:mocker-%s:%s" % (path, mode), "link mode %s: a mock installed through the absent name fnzoo.T.um1 (%s path) was accepted instead of refused (only (*T).um1 exists; CallUm1 now answers %s)" % (
+                                mode, path, r.get("absent_%s_accepted" % path)), r)
             elif r["kind"] == "history":
                 ck.coverage["evaluations"] += r["steps"]
                 summary[mode]["history_steps"] = r["steps"]
